@@ -577,7 +577,10 @@ def main():
             if p["status"] == "SUCCESS":
                 discharged += 1
                 mine_ok += 1
-                if tags and p.get("reachable") is False and not p["desc"].startswith("opt:"):
+                # vacuity guard: an unreachable tagged assertion *of the harness module itself*
+                # (specification code shared between harnesses legitimately has unreachable arms)
+                mod = s["name"].split("::")[0] + "::"
+                if tags and p.get("reachable") is False and (p.get("function") or "").startswith(mod):
                     unreachable.append("%s: tagged assertion unreachable (vacuous): %s" % (r["harness"], p["desc"]))
             elif p["status"] == "FAILURE":
                 k = is_known(known, pid, r["harness"], p["desc"])
